@@ -32,7 +32,7 @@ EXTENDS Naturals, Integers, Sequences, FiniteSets, TLC
 (*    a : children (a sequence of values)                                   *)
 V(t, s, n, a) == [t |-> t, s |-> s, n |-> n, a |-> a]
 
-Int(k)    == V("Int",   "", k, <<>>)
+IntV(k)    == V("Int",   "", k, <<>>)
 Bool(b)   == V("Bool",  "", IF b THEN 1 ELSE 0, <<>>)
 Float(h)  == V("Float", "", h, <<>>)              \* h counts HALVES: Float(2) = 1.0, Float(5) = 2.5
 Str(x)    == V("Str",   x, 0, <<>>)
@@ -64,7 +64,7 @@ FrozenClasses == {"PB"}        \* classes whose instances are hashable (frozen d
 IsNum(v)  == v.t \in NumTypes
 NumVal(v) == IF v.t = "Float" THEN v.n ELSE 2 * v.n         \* numeric value in halves
 
-Range(q) == {q[i] : i \in DOMAIN q}
+Elems(q) == {q[i] : i \in DOMAIN q}
 MinOf(S) == CHOOSE x \in S : \A y \in S : x <= y
 MaxOf(S) == CHOOSE x \in S : \A y \in S : x >= y
 RECURSIVE SortedSeq(_)                                      \* a finite set of integers, ascending
@@ -84,7 +84,7 @@ SortedSeq(S) == IF S = {} THEN <<>> ELSE <<MinOf(S)>> \o SortedSeq(S \ {MinOf(S)
 (* class of an object are always significant.                               *)
 RECURSIVE Sim(_, _, _)
 Sim(v, w, L) ==
-    LET sub(q, r)  == \A x \in Range(q) : \E y \in Range(r) : Sim(x, y, L)
+    LET sub(q, r)  == \A x \in Elems(q) : \E y \in Elems(r) : Sim(x, y, L)
         same(q, r) == Len(q) = Len(r) /\ \A i \in DOMAIN q : Sim(q[i], r[i], L)
     IN
     IF L /\ IsNum(v) /\ IsNum(w) THEN NumVal(v) = NumVal(w)
@@ -107,6 +107,11 @@ Hashable(v) == \/ v.t \in ScalarTypes \cup {"FrozenSet"}
 RECURSIVE HasObj(_)                        \* some part is keyed through the pickle fallback or by an object
 HasObj(v) == v.t = "Obj" \/ \E i \in DOMAIN v.a : HasObj(v.a[i])
 
+(* A frozenset with >= 2 members is returned unchanged by to_hashable (pinned by the tests): equal in    *)
+(* every process, but its PICKLE, hence the DiskCache file name, follows the iteration order.         *)
+RECURSIVE HasAsIsFrozenSet(_)
+HasAsIsFrozenSet(v) == (v.t = "FrozenSet" /\ Len(v.a) >= 2) \/ \E i \in DOMAIN v.a : HasAsIsFrozenSet(v.a[i])
+
 (* Given Eq(v, w): some unhashable object sits at corresponding positions with a different         *)
 (* REPRESENTATION (a dict or set inside it was filled in another order).  Its key is a digest of   *)
 (* its pickle, and tests/test_cache_to_hashable.py pins that (key == _cloudpickle_key(obj)).       *)
@@ -114,7 +119,7 @@ RECURSIVE ObjDiff(_, _)
 ObjDiff(v, w) ==
     IF v.t = "Obj" /\ ~Hashable(v) THEN v # w
     ELSE IF v.t \in SetTypes \cup MappingTypes
-         THEN \E x \in Range(v.a), y \in Range(w.a) : Eq(x, y) /\ ObjDiff(x, y)
+         THEN \E x \in Elems(v.a), y \in Elems(w.a) : Eq(x, y) /\ ObjDiff(x, y)
          ELSE \E i \in DOMAIN v.a : ObjDiff(v.a[i], w.a[i])
 
 (* The documented don't-care class: either outcome (equal or unequal keys) is accepted.            *)
@@ -123,6 +128,8 @@ ObjDiff(v, w) ==
 (*  (b) array.array typecode, deque.maxlen, defaultdict.default_factory: == ignores them, the keys  *)
 (*      contain them, and the repository's tests pin the keys;                                      *)
 (*  (c) Eq values that contain an unhashable object whose pickle differs (see ObjDiff).             *)
+(* (Not a relation between values, hence not here: (d) the pickle BYTES of a key that contains an   *)
+(*  as-is frozenset, HasAsIsFrozenSet above; the keys themselves are equal in every process.)       *)
 DontCare(v, w) == \/ PyEqual(v, w) /\ ~Eq(v, w)
                   \/ Eq(v, w) /\ ObjDiff(v, w)
 
@@ -174,7 +181,7 @@ AsIs(v) == CASE IsNum(v)            -> KNum(NumVal(v))
              [] v.t = "Str"         -> KStr(v.s)
              [] v.t = "Bytes"       -> KBytes(v.s)
              [] v.t = "Tuple"       -> KTuple([i \in DOMAIN v.a |-> AsIs(v.a[i])])
-             [] v.t = "FrozenSet"   -> KFrozen({AsIs(x) : x \in Range(v.a)})
+             [] v.t = "FrozenSet"   -> KFrozen({AsIs(x) : x \in Elems(v.a)})
              [] v.t = "Obj"         -> KObj(v.s, [i \in DOMAIN v.a |-> AsIs(v.a[i])])
 
 (* pandas: Series.to_dict() (a repeated label keeps its first position and its LAST value) and    *)
@@ -200,7 +207,7 @@ PyCmp(x, y) ==
                      D == {i \in 1..n : ~PyEqual(x.a[i], y.a[i])}
                  IN  IF D = {} THEN "ord" ELSE PyCmp(x.a[MinOf(D)], y.a[MinOf(D)])
            [] x.t = "FrozenSet" ->
-                 LET sub(q, r) == \A u \in Range(q) : \E w \in Range(r) : PyEqual(u, w)
+                 LET sub(q, r) == \A u \in Elems(q) : \E w \in Elems(r) : PyEqual(u, w)
                  IN  IF sub(x.a, y.a) \/ sub(y.a, x.a) THEN "ord" ELSE "nc"
            [] OTHER -> "err"
 (* what can go wrong in `sorted(items)` as coded: mixed types raise, a partial order leaves the     *)
@@ -226,7 +233,7 @@ Problems(v, fx) ==
          [] v.t = "Set"                       -> sortp(v.a)
          [] v.t \in {"List", "Tuple", "Deque"} -> subs(v.a)
          [] v.t = "NdArray" -> IF "objarr" \in fx THEN subs(v.a[2].a)
-                               ELSE IF \E x \in Range(v.a[2].a) : ~Hashable(x) THEN {"unhashable"} ELSE {}
+                               ELSE IF \E x \in Elems(v.a[2].a) : ~Hashable(x) THEN {"unhashable"} ELSE {}
          [] v.t = "Series"    -> Problems(SeriesDict(v), fx)
          [] v.t = "DataFrame" -> Problems(FrameDict(v), fx)
          [] OTHER -> {}                       \* ByteArray, PyArray, Obj (pickle of an importable dataclass)
@@ -240,13 +247,13 @@ KeyVal(v, fx) ==
         subs(q)   == KTuple([i \in DOMAIN q |-> sub(q[i])])            \* _hashable_iterable
         item(pr)  == KTuple(<<AsIs(pr.a[1]), sub(pr.a[2])>>)           \* (k, to_hashable(v))
         items(p)  == KTuple([i \in DOMAIN p |-> item(p[i])])           \* _hashable_mapping
-        sitems(p) == KSorted({item(pr) : pr \in Range(p)})             \* _hashable_mapping(sort=True)
+        sitems(p) == KSorted({item(pr) : pr \in Elems(p)})             \* _hashable_mapping(sort=True)
         raw(q)    == KTuple([i \in DOMAIN q |-> IF Hashable(q[i]) THEN AsIs(q[i]) ELSE KRaw(q[i])])
     IN CASE v.t = "OrderedDict" -> Conv(v.t, items(v.a))
          [] v.t = "DefaultDict" -> Conv(v.t, KTuple(<<KType(v.s), sitems(v.a)>>))
-         [] v.t = "Counter"     -> Conv(v.t, KSorted({KTuple(<<AsIs(pr.a[1]), AsIs(pr.a[2])>>) : pr \in Range(v.a)}))
+         [] v.t = "Counter"     -> Conv(v.t, KSorted({KTuple(<<AsIs(pr.a[1]), AsIs(pr.a[2])>>) : pr \in Elems(v.a)}))
          [] v.t = "Dict"        -> Conv(v.t, sitems(v.a))
-         [] v.t = "Set"         -> Conv(v.t, KSorted({AsIs(x) : x \in Range(v.a)}))
+         [] v.t = "Set"         -> Conv(v.t, KSorted({AsIs(x) : x \in Elems(v.a)}))
          [] v.t \in {"List", "Tuple"} -> Conv(v.t, subs(v.a))
          [] v.t = "Deque"       -> Conv(v.t, KTuple(<<IF v.n = 0 THEN KNone ELSE KNum(2 * v.n), subs(v.a)>>))
          [] v.t = "ByteArray"   -> Conv(v.t, raw(v.a))
